@@ -97,7 +97,7 @@ FLOATS = [0.0, -0.0, 1.0, 2.0, -1.5, 0.1, 1e-320, 5e-324, 1e-7, 1e16, 1e22, 1.79
           float("-inf"), 3.141592653589793, 1 / 3, 123456789.123456789, 2.5e-5, -1e-300]
 KEYS_PLAIN = ["name", "value", "k0", "k1", "k2", "k3", "player_num", "prev_value", "change", "x", "state"]
 KEYS_ODD = ["Foo", "K0", "with space", "a&b", "a=b", "p%25", "%41", "\u00e9t\u00e9", "k\U0001F600", "a+b", "q?",
-            "h#", "a.b", "a-b", "a/b", "int:5", "json", "bytes", "rawbytes", "_from_bcp", "cmd", "self", "0", "a\nb",
+            "h#", "a.b", "a-b", "a/b", "int:5", "json", "bytes", "_from_bcp", "cmd", "self", "0", "a\nb",
             "callback"]
 TRIGGER_KEYS = ["k0", "k1", "k2", "k3", "k4", "value", "player_num", "state"]
 
